@@ -89,6 +89,11 @@ type vfC20File struct {
 	// Off[i] is the byte offset of the first byte of line i; Off[len(Lines)]
 	// is the file size.
 	Off []int64
+	// Tail, if not empty, follows the last complete line without a line
+	// break: the beginning of a record whose writing is in progress (a flush
+	// appends many records with one write) or was cut short (crash, full
+	// disk).  It is not a line of the file.
+	Tail string
 }
 
 func (f *vfC20File) size() (n int64) { return f.Off[len(f.Lines)] }
@@ -99,6 +104,7 @@ func (f *vfC20File) bytes() (b []byte) {
 		b = append(b, l...)
 		b = append(b, '\n')
 	}
+	b = append(b, f.Tail...)
 
 	return b
 }
@@ -518,6 +524,11 @@ func vfC20TempDir(t *rapid.T) (dir string) {
 // vfC20Write stores the file of the model.
 func vfC20Write(t *rapid.T, dir, name string, f *vfC20File) (path string) {
 	path = filepath.Join(dir, name)
+	if rapid.IntRange(0, 5).Draw(t, name+"_unterminated_tail") == 0 {
+		next := `{"T":"2100-01-01T00:00:00.123456789Z","QH":"tail.example","QT":"A","QC":"IN","CP":"","Answer":"AAAA","IP":"192.0.2.9","Elapsed":1}`
+		f.Tail = next[:rapid.SampledFrom([]int{1, 5, 6, 12, 30, 37, 38, 60, len(next)}).Draw(t, name+"_tail_cut")]
+		vfC20.Class("file:unterminated_tail")
+	}
 	err := os.WriteFile(path, f.bytes(), 0o644)
 	if err != nil {
 		t.Fatalf("VERIF-INCONCLUSIVE writing %s: %v", path, err)
